@@ -25,12 +25,20 @@ class _Rec:
 
     def __init__(self):
         self.seen = None
+        self.methods = set()
 
     def __len__(self):
         return 1
 
     def iter(self, text):
         self.seen = text
+        self.methods.add("iter")
+        return iter(())
+
+    def iter_long(self, text):
+        # longest non-overlapping matches only: NOT "every added word that occurs" - recorded, see check()
+        self.seen = text
+        self.methods.add("iter_long")
         return iter(())
 
 
@@ -66,7 +74,11 @@ def record_maps(T):
             # context-sensitive mapping (e.g. final sigma): only harmless if no ASCII is involved
             if any(ord(ch) < 128 for ch in ci.seen + want_ci) and [ch for ch in ci.seen if ord(ch) < 128] != [ch for ch in want_ci if ord(ch) < 128]:
                 raise RuntimeError(f"text transformation is not per-character on {s!r}")
+    QUERY_METHODS.update(cs.methods | ci.methods)
     return img_cs, img_ci
+
+
+QUERY_METHODS = set()
 
 
 def setup():
@@ -405,6 +417,10 @@ def check(rep):
     rep.outside.append("custom extractors that are not in the installed list; the matching behaviour of pyahocorasick itself (contract: iter(text) reports every added word that occurs in text)")
     rep.stubs.append("ahocorasick.Automaton: iter(text) yields the value of every added word occurring in text (contract); the words are read from the live automata")
     rep.assumptions.append("str.lower()/translate act per character wherever ASCII output is involved (spot-checked on 3000 seeded triples each run)")
+    rep.sections["automaton_query_methods"] = sorted(QUERY_METHODS)
+    if QUERY_METHODS - {"iter"}:
+        # the per-extractor inclusion theorem needs "every added word that occurs is reported"
+        rep.inconc(f"the pre-filter queries its automata through {sorted(QUERY_METHODS - {'iter'})}, which does not report every occurring word: the inclusion queries alone do not imply losslessness (see the symbolic sub-list clause)")
     if st["foreign"]:
         rep.inconc(f"automata reference extractors that are not in tokenizer.extractors: {st['foreign'][:3]}")
     idx = list(range(n))
@@ -514,28 +530,9 @@ def check(rep):
         if f["verdict"] != "cex":
             rep.inconc(f"{f['clause']}: solver verdict {f['verdict']}")
             continue
-        # replay with real extractors of the same shape
-        import re as _re
-
         w = f["witness"]
-        real = []
-        for j, (kind_, word) in enumerate(w["extractors"]):
-            rx_ = "(%s)" % (word if word else "zz%d" % j)
-            real.append(st["M"].TokenExtractor(rx_, st["M"].IdToken.from_match, flags=_re.I if kind_ == 2 else 0, strings=[] if kind_ == 0 else [word if kind_ == 1 else word.upper()]))
-        texts = ["wa wb", "WA", "wb", "", "zz0 zz1 wa", "Wb wa", "wawb", "WAWB", "wa wawb", "wb wawb"]
         rep.replays += 1
-        hit = None
-        for t in texts:
-            try:
-                a = T.AhocorasickTokenizer(extractors=list(real)).tokenize(t)
-                a = ([str(x) for x in a[0]], [(type(x).__name__, x.start, x.end) for _, x in a[1]])
-            except Exception as ex:
-                a = ("raised " + type(ex).__name__,)
-            b = T.Tokenizer(extractors=list(real)).tokenize(t)
-            b = ([str(x) for x in b[0]], [(type(x).__name__, x.start, x.end) for _, x in b[1]])
-            if a != b:
-                hit = (t, a, b)
-                break
+        hit = replay_sublist(w)
         if hit:
             rep.violation(f"AhocorasickTokenizer and Tokenizer differ on {hit[0]!r} for an extractor list of shape {w['extractors']}: {hit[1]} vs {hit[2]}", {"kind": "sublist_model", "witness": w})
             break
@@ -562,6 +559,33 @@ def check(rep):
     )
 
 
+def replay_sublist(w):
+    """real extractors of the model's shape, run through both tokenizers on probe texts; returns
+    (text, filtered, reference) for the first difference, else None."""
+    import re as _re
+
+    st = setup()
+    T = st["T"]
+    real = []
+    for j, (kind_, word) in enumerate(w["extractors"]):
+        # an optional private prefix lets an extractor's match start before (and so take precedence over)
+        # another extractor's match that covers its filter word
+        rx_ = "((?:q%d)?%s)" % (j, word) if word else "(zz%d)" % j
+        real.append(st["M"].TokenExtractor(rx_, st["M"].IdToken.from_match, flags=_re.I if kind_ == 2 else 0, strings=[] if kind_ == 0 else [word if kind_ == 1 else word.upper()]))
+    texts = ["wa wb", "WA", "wb", "", "zz0 zz1 wa", "Wb wa", "wawb", "WAWB", "wa wawb", "wb wawb"] + [f"q{j}{x}" for j in range(len(w["extractors"])) for x in ("wawb", "WAWB", "wa", "wb")]
+    for t in texts:
+        try:
+            a = T.AhocorasickTokenizer(extractors=list(real)).tokenize(t)
+            a = ([str(x) for x in a[0]], [(type(x).__name__, x.start, x.end) for _, x in a[1]])
+        except Exception as ex:
+            a = ("raised " + type(ex).__name__,)
+        b = T.Tokenizer(extractors=list(real)).tokenize(t)
+        b = ([str(x) for x in b[0]], [(type(x).__name__, x.start, x.end) for _, x in b[1]])
+        if a != b:
+            return (t, a, b)
+    return None
+
+
 def replay_file(path):
     import json
 
@@ -571,6 +595,10 @@ def replay_file(path):
         rp = replay(d["extractor"], d["text"])
         print(rp)
         return 1 if rp["regex_matches"] and not rp["selected_by_filter"] else 0
+    if d["kind"] == "sublist_model":
+        hit = replay_sublist(d["witness"])
+        print(hit)
+        return 1 if hit else 0
     T = st["T"]
     a = st["tok"].tokenize(d["text"])
     b = T.Tokenizer().tokenize(d["text"])
